@@ -321,6 +321,10 @@ func c14(c *core.Ctx) {
 	// translators included, which replace an error only if it IS a context sentinel) keep code, message and
 	// details (C02/R3)
 	c.Borrow("C02", map[string]string{"R3": "R8"}, c02)
+	// "the caller recovers exactly the original code": what the unary call returns is what its return statement said
+	// (C02/R7: no goroutine of the call writes its result variable) and, for streams, a reply that carried a non-OK
+	// status ends the stream with it (C02/R1: no exit of the reply reader leaves a success behind)
+	c.Borrow("C02", map[string]string{"R7": "R9", "R1": "R10"}, c02)
 
 }
 
